@@ -21,6 +21,8 @@ BRANCHES = [
     "shb.remove.index>=num_hb_to_do:keep", "shb.enabled.negative-refused", "shb.enabled.retune",
     "shb.append.first-allocation", "shb.append.grow-array", "shb.append.room", "shb.append.negative->1",
     "efun.saturate-high", "efun.saturate-low", "efun.pass", "qhb.on-list", "qhb.flag-off->0",
+    "destruct.no-inventory", "destruct.inventory-hooks", "destruct.hook-enabled-the-dying-object",
+    "destruct.hook-disabled-the-dying-object", "take",
     "clone.blueprint-heart-beat-switched-off", "clone.blueprint-has-no-heart-beat", "timer-fired", "heart_beats()",
 ]
 
@@ -28,7 +30,7 @@ BRANCHES = [
 class C11(Prop):
     id = "C11"
     title = "heart_beat runs once per interval per enabled object; faults stay local"
-    lean_modules = ["NV.C11.Props", "NV.C11.Witness", "NV.C11.Trace"]
+    lean_modules = ["NV.C11.Props", "NV.C11.Witness", "NV.C11.Trace", "NV.C11.Negative"]
     theorems = [
         "NV.C11.model_satisfies_spec",
         "NV.C11.hb_index_in_bounds",
@@ -53,6 +55,10 @@ class C11(Prop):
         "NV.C11.gen_hbBody_eq",
         "NV.C11.gen_loopStep_eq",
         "NV.C11.gen_loopContinues_eq",
+        "NV.C11.gen_destructOrder_eq",
+        "NV.C11.destructFull_ref",
+        "NV.C11.sim_hooksPhase",
+        "NV.C11.sim_stepOp",
         "NV.C11.setHeartBeat_eq_ref",
         "NV.C11.round_eq_ref",
         "NV.C11.sim_disable",
@@ -139,6 +145,11 @@ class C11(Prop):
         mk("error-after-reenable", pop3 + ["script o3 hb:0 shb,o3,0;shb,o3,1;err", "tick", "do o0 hbs", "tick"])
         mk("error-stale-cursor", pop3 + ["script o2 hb:0 err", "tick", "do o0 shb,o3,0", "do o0 shb,o4,0", "do o0 clone,o5,0,1",
                                         "tick", "tick"])
+        # error_handler must clear current_heart_beat: a later unrelated error must not switch the object off again
+        mk("error-then-unrelated-top-level-error", pop3 + ["script o2 hb:0 err", "tick", "do o0 shb,o2,1", "do o3 err",
+                                                            "do o0 hbs", "do o0 q,o2", "tick", "tick"])
+        mk("error-then-unrelated-error-in-hook-free-destruct", pop3 + ["script o3 hb:1 err", "tick", "tick", "do o3 shb,o3,2",
+                                                                        "do o4 err", "do o2 err", "do o0 hbs", "tick", "tick"])
         mk("clone-in-round", pop3 + ["script o2 hb:0 clone,o5,0,1;clone,o6,0,2;hbs", "tick", "tick", "tick"])
         mk("clone-disables-blueprint", ["do o0 shb,o0,1", "do o0 q,o0", "tick", "do o0 clone,o2,0,1", "do o0 q,o0", "tick"])
         mk("blueprint-clone-in-own-beat", ["do o0 shb,o0,1", "do o0 clone,o2,0,1", "do o0 shb,o0,1",
@@ -159,6 +170,41 @@ class C11(Prop):
         mk("timer-fires-between", pop3 + ["do o2 flag", "tick", "tick"])
         mk("grow-array", ["do o0 clone,o%d,0,1" % i for i in range(2, 70)] + ["script o5 hb:0 clone,o80,0,1",
                           "tick", "do o0 hbs", "tick"])
+        # --- destruct_object is a SEQUENCE: inventory hooks run before the heart-beat removal and the O_DESTRUCTED store
+        carrier = ["do o0 clone,o2,0,1", "do o0 clone,o3,0,0", "do o0 clone,o4,0,1", "do o2 take,o3", "do o0 clone,o5,0,1"]
+        mk("hook-wakes-dying-carrier", carrier + ["script o3 md shb,o2,1;q,o2;hbs", "tick", "do o0 dest,o2", "do o0 hbs",
+                                                   "tick", "tick"])
+        mk("hook-wakes-sleeping-dying-carrier", carrier + ["script o3 md shb,o2,1;hbs", "do o2 shb,o2,0", "do o0 dest,o2",
+                                                            "do o0 hbs", "tick", "tick"])
+        mk("hook-wakes-carrier-self-destruct-in-beat", carrier + ["script o3 md shb,o2,3;shb,o2,1", "script o2 hb:1 dest,o2",
+                                                                   "tick", "tick", "do o0 hbs", "tick", "tick"])
+        mk("hook-wakes-carrier-destructed-by-earlier-beat", carrier + ["script o3 md shb,o2,0;shb,o2,1", "do o0 shb,o2,0",
+                                                                        "do o0 shb,o2,1", "script o4 hb:1 dest,o2;hbs",
+                                                                        "tick", "tick", "tick", "tick"])
+        mk("hook-touches-others", carrier + ["do o2 take,o4", "script o3 md shb,o5,0;clone,o6,0,1", "script o4 md shb,o5,2;flag",
+                                              "tick", "do o0 dest,o2", "do o0 hbs", "tick", "tick"])
+        mk("item-with-heart-beat-destructed-by-driver", ["do o0 clone,o2,0,2", "do o0 clone,o3,0,1", "do o2 take,o3",
+                                                          "script o3 md hbs", "tick", "do o0 dest,o2", "do o0 hbs", "tick"])
+        mk("item-destructs-its-carrier-in-own-beat", carrier + ["do o0 shb,o3,1", "script o3 md shb,o2,1;hbs",
+                                                                 "script o3 hb:0 dest,o2;hbs;q,o3", "tick", "do o0 hbs", "tick"])
+        mk("take-refusals", ["do o0 clone,o2,0,1", "do o0 clone,o3,0,1", "do o0 clone,o4,0,1", "do o2 take,o3", "do o3 take,o4",
+                             "do o4 take,o2", "do o2 take,o2", "do o2 take,o0", "do o2 take,o9", "do o4 take,o3",
+                             "do o0 dest,o2", "do o4 take,o3", "tick"])
+        # --- the LAST entry of the list is removed during a round, from every position, by itself or by an earlier /
+        #     later object, by set_heart_beat(0) and by destruct, list lengths 1..4 (interval 1: a stale slot would beat)
+        for n in range(1, 5):
+            pop = ["do o0 clone,o%d,0,1" % (i + 2) for i in range(n)]
+            last = n + 1
+            for actor in range(n):
+                for how in ("shb,o%d,0" % last, "dest,o%d" % last):
+                    mk("last-entry-removed-n%d-by%d-%s" % (n, actor, how.split(",")[0]),
+                       pop + ["script o%d hb:1 %s;hbs" % (actor + 2, how), "tick", "tick", "do o0 hbs", "tick"])
+            # ... and the last entry removed together with an earlier one / re-enabled in the same beat
+            if n >= 2:
+                mk("last-and-first-removed-n%d" % n, pop + ["script o%d hb:1 shb,o2,0;shb,o%d,0;hbs" % (last, last), "tick",
+                                                            "tick", "tick"])
+                mk("last-removed-and-reenabled-n%d" % n, pop + ["script o2 hb:1 shb,o%d,0;shb,o%d,1;hbs" % (last, last),
+                                                                "tick", "tick", "tick"])
         mk("empty", ["tick", "do o0 hbs", "tick"])
         mk("dead-and-unknown", ["do o0 clone,o2,0,1", "do o0 dest,o2", "do o0 dest,o2", "do o0 shb,o2,1", "do o0 q,o9",
                                 "do o2 hbs", "do o9 hbs", "do o0 dest,o0", "do o0 dest,o1", "do o0 clone,o2,0,1", "tick"])
@@ -167,8 +213,8 @@ class C11(Prop):
     def gen_ops(self, rng, ids, allow_err=True, n=None):
         ops = []
         for _ in range(n if n is not None else rng.weighted([(1, 6), (2, 4), (3, 2), (5, 1)])):
-            k = rng.weighted([("shb", 12), ("q", 2), ("dest", 3), ("clone", 2), ("err", 2 if allow_err else 0),
-                              ("flag", 1), ("hbs", 2)])
+            k = rng.weighted([("shb", 12), ("q", 2), ("dest", 4), ("clone", 2), ("err", 2 if allow_err else 0),
+                              ("flag", 1), ("hbs", 2), ("take", 1)])
             t = rng.choice(ids["all"])
             if k == "shb":
                 ops.append("shb,o%d,%d" % (t, rng.weighted(INTERVALS)))
@@ -176,6 +222,8 @@ class C11(Prop):
                 ops.append("q,o%d" % t)
             elif k == "dest":
                 ops.append("dest,o%d" % t)
+            elif k == "take":
+                ops.append("take,o%d" % t)
             elif k == "clone":
                 ids["next"] += 1
                 new = ids["next"] if rng.chance(14, 15) else rng.choice(ids["all"])
@@ -200,6 +248,28 @@ class C11(Prop):
             ids["all"].append(new)
             body.append("do o0 clone,o%d,%d,%d" % (new, rng.weighted([(0, 8), (1, 1)]),
                                                     rng.weighted([(1, 10), (2, 5), (3, 3), (0, 2), (4, 1)])))
+        # inventories: some objects carry others; the items' move_or_destruct() hooks touch heart beats
+        pop0 = [x for x in ids["all"] if x >= 2]
+        if len(pop0) >= 2 and rng.chance(1, 2):
+            for _ in range(rng.range(1, 2)):
+                c, i = rng.choice(pop0), rng.choice(pop0)
+                body.append("do o%d take,o%d" % (c, i))
+                hops = []
+                for _ in range(rng.range(1, 3)):
+                    k = rng.weighted([("wake", 5), ("shb", 3), ("hbs", 1), ("q", 1), ("flag", 1), ("clone", 1)])
+                    if k == "wake":
+                        hops.append("shb,o%d,%d" % (c, rng.weighted([(1, 5), (2, 2), (0, 1)])))
+                    elif k == "shb":
+                        hops.append("shb,o%d,%d" % (rng.choice(ids["all"]), rng.weighted(INTERVALS)))
+                    elif k == "q":
+                        hops.append("q,o%d" % c)
+                    elif k == "clone":
+                        ids["next"] += 1
+                        ids["all"].append(ids["next"])
+                        hops.append("clone,o%d,0,1" % ids["next"])
+                    else:
+                        hops.append(k)
+                body.append("script o%d md %s" % (i, ";".join(hops)))
         # heart_beat scripts (self is much more likely than a stranger)
         pop = list(ids["all"])
         for _ in range(rng.range(0, 2 * npop)):
@@ -217,6 +287,11 @@ class C11(Prop):
         for _ in range(rng.range(3, 25)):
             if rng.chance(3, 5):
                 body.append("tick")
+                if rng.chance(1, 8):
+                    # after a (possibly aborted) round: re-enable somebody and raise an unrelated top-level error
+                    body.append("do o0 shb,o%d,1" % rng.choice(ids["all"]))
+                    body.append("do o%d err" % rng.choice(ids["all"]))
+                    body.append("do o0 hbs")
             else:
                 o = rng.choice(ids["all"])
                 for op in self.gen_ops(rng, ids, n=1):
